@@ -24,7 +24,9 @@ func init() {
 }
 
 type Case struct {
-	Doc string `json:"yaml"`
+	Doc    string `json:"yaml"`
+	Class  string `json:"class,omitempty"`
+	Expect *doc   `json:"expect,omitempty"` // what the statement says about this document
 }
 
 // addrSpec: one spelling of a listen address and what the statement says about it.
@@ -38,6 +40,7 @@ type addrSpec struct {
 	skip   bool // statement silent: enumerate, assert nothing
 	mcast  bool // link-local multicast without zone: expanded per interface
 	any    bool // wildcard forms valid for both families
+	zero   bool // port 0 written explicitly: must stay 0, not become the default
 }
 
 var addrs = []addrSpec{
@@ -46,6 +49,10 @@ var addrs = []addrSpec{
 	{text: "':67'", any: true, port: 67},
 	{text: "':6767'", any: true, port: 6767},
 	{text: "192.0.2.1:6767", ver: 4, ip: "192.0.2.1", port: 6767},
+	{text: "192.0.2.1:0", ver: 4, ip: "192.0.2.1", zero: true},
+	{text: "':0'", any: true, zero: true},
+	{text: "'%lo:0'", any: true, zone: "lo", zero: true},
+	{text: "'[2001:db8::1]:0'", ver: 6, ip: "2001:db8::1", zero: true},
 	{text: "'%lo'", any: true, zone: "lo"},
 	{text: "'%lo:6767'", any: true, zone: "lo", port: 6767},
 	{text: "'192.0.2.1%lo:6767'", ver: 4, ip: "192.0.2.1", zone: "lo", port: 6767},
@@ -88,6 +95,22 @@ type pluginItem struct {
 	skip   bool
 }
 
+func (p pluginItem) MarshalJSON() ([]byte, error) {
+	return json.Marshal(map[string]interface{}{"name": p.name, "args": p.args})
+}
+
+func (p *pluginItem) UnmarshalJSON(b []byte) error {
+	var m struct {
+		Name string   `json:"name"`
+		Args []string `json:"args"`
+	}
+	if err := json.Unmarshal(b, &m); err != nil {
+		return err
+	}
+	p.name, p.args = m.Name, m.Args
+	return nil
+}
+
 var items = []pluginItem{
 	{yaml: "dns: 8.8.8.8 1.1.1.1", name: "dns", args: []string{"8.8.8.8", "1.1.1.1"}},
 	{yaml: "mtu: 1500", name: "mtu", args: []string{"1500"}},
@@ -119,11 +142,55 @@ type section struct {
 	listen  []net.UDPAddr
 }
 
+type docJSON struct {
+	Reject  bool                    `json:"must_be_rejected"`
+	SkipAll bool                    `json:"not_asserted"`
+	SkipLis map[string]bool         `json:"listen_not_asserted,omitempty"`
+	Expect  map[string]*sectionJSON `json:"sections,omitempty"`
+}
+
+type sectionJSON struct {
+	Plugins []pluginItem  `json:"plugins"`
+	Listen  []net.UDPAddr `json:"listen"`
+}
+
+func (d doc) MarshalJSON() ([]byte, error) {
+	j := docJSON{Reject: d.reject, SkipAll: d.skipAll, SkipLis: map[string]bool{}, Expect: map[string]*sectionJSON{}}
+	for k, v := range d.skipLis {
+		j.SkipLis[fmt.Sprint(k)] = v
+	}
+	for k, v := range d.expect {
+		if v != nil {
+			j.Expect[fmt.Sprint(k)] = &sectionJSON{v.plugins, v.listen}
+		}
+	}
+	return json.Marshal(j)
+}
+
+func (d *doc) UnmarshalJSON(b []byte) error {
+	var j docJSON
+	if err := json.Unmarshal(b, &j); err != nil {
+		return err
+	}
+	d.reject, d.skipAll, d.skipLis, d.expect = j.Reject, j.SkipAll, map[int]bool{}, map[int]*section{}
+	for k, v := range j.SkipLis {
+		var n int
+		fmt.Sscan(k, &n)
+		d.skipLis[n] = v
+	}
+	for k, v := range j.Expect {
+		var n int
+		fmt.Sscan(k, &n)
+		d.expect[n] = &section{v.Plugins, v.Listen}
+	}
+	return nil
+}
+
 var ifaces = srv.Ifaces()
 
 func expand(a addrSpec, ver int) []net.UDPAddr {
 	port := a.port
-	if port == 0 {
+	if port == 0 && !a.zero {
 		port = map[int]int{4: 67, 6: 547}[ver]
 	}
 	ip := net.ParseIP(a.ip)
@@ -170,7 +237,8 @@ func load(text string) (c *config.Config, err error, pan string) {
 
 func eval(r *ev.Run, d doc, class string) {
 	c, err, pan := load(d.text)
-	cs := Case{d.text}
+	dd := d
+	cs := Case{d.text, class, &dd}
 	if pan != "" {
 		r.Violate("C18/panic", "config.Load panicked: "+pan, cs)
 		r.Eval(class + "/panic")
@@ -387,7 +455,7 @@ func run(r *ev.Run) {
 				for _, m := range muts {
 					_, err, pan := load(m)
 					if pan != "" {
-						r.Violate("C18/panic", "config.Load panicked: "+pan, Case{m})
+						r.Violate("C18/panic", "config.Load panicked: "+pan, Case{Doc: m})
 					}
 					if err != nil {
 						r.Eval(fmt.Sprintf("mutant/seed%d/error", si))
@@ -430,7 +498,13 @@ func replay(r *ev.Run, raw json.RawMessage) {
 	if cfg != nil {
 		fmt.Printf("  server4=%+v\n  server6=%+v\n", cfg.Server4, cfg.Server6)
 	}
-	if pan != "" {
-		r.Violate("C18/panic", pan, c)
+	if c.Expect == nil {
+		if pan != "" {
+			r.Violate("C18/panic", pan, c)
+		}
+		return
 	}
+	d := *c.Expect
+	d.text = c.Doc
+	eval(r, d, c.Class)
 }
